@@ -5,7 +5,11 @@ Decided: the finite rounding-polarity table of compute_swap over (exact_in, a_to
 curve primitives); the increment idiom of the six rounding primitives (a `+1` is
 reachable exactly when round_up and only behind a non-zero remainder test); the
 next-price dispatch and its rounding; the fee / pre-fee budget formulas per mode;
-the exact-out cap; which of the fixed / unfixed amounts becomes amount_in / out.
+the exact-out cap; which of the fixed / unfixed amounts becomes amount_in / out; the test
+guarding each `+1` is the exact remainder of the operation that produced the incremented
+value (Q64 mask / resolution constants, `%` of the same operands, the U256 division's own
+remainder); the (min, max) price ordering; the reach-target decision (`lte` is v <= budget,
+overflow counts as not reached, target taken exactly when lte).
 Not decided: equality with exact rational arithmetic, one-unit tightness, "as far as
 the budget allows", correctness of the 256-bit division. Pure numerics."""
 from analysis import cfg, atoms as A, preach
